@@ -685,6 +685,9 @@ func (fc *FnCtx) applyContract(s *CallSite, ct *FuncContract, callee *ssa.Functi
 	if ct.Flags["trusted"] {
 		fc.assumeNote("trusted (unverified) contract of " + ct.Name)
 	}
+	if ct.Flags["trustedframe"] {
+		fc.assumeNote("trusted (unverified) frame condition of " + ct.Name + " (its other clauses are verified)")
+	}
 }
 
 func (fc *FnCtx) contractBindings(s *CallSite, ct *FuncContract, callee *ssa.Function) map[string]specVal {
@@ -1034,14 +1037,14 @@ func (fc *FnCtx) doReturn(x *ssa.Return) {
 			fc.assert("exhaustive", fmt.Sprintf("%s:loop%d.noearlyexit#%d", fc.name, li.Ord, fc.nextCount(fmt.Sprintf("ex%d", li.Ord))), FalseT, "no return from inside the loop", x.Pos(), false)
 		}
 	}
-	if fc.contract == nil || len(fc.contract.Ensures) == 0 {
+	if fc.contract == nil || (len(fc.contract.Ensures) == 0 && !fc.contract.HasMod) {
 		return
 	}
 	var res []Term
 	for _, r := range x.Results {
 		res = append(res, fc.term(r))
 	}
-	if fc.contract.HasMod {
+	if fc.contract.HasMod && !fc.contract.Flags["trustedframe"] {
 		fc.frameObligations(x)
 	}
 	sc := fc.funcScope(fc.env, fc.entryEnv, res)
